@@ -164,3 +164,12 @@ Definition reward_escrow (next : N) (order : list (N * Z)) (s : store) : store :
    Commit (sync.Map.Range): each visited key writes its own leaf — a keyed assignment *)
 Definition write_leaves (tag : N) (order : list (N * Z)) (s : store) : store :=
   run_ops (map (fun e => OSet (tag, fst e) (snd e)) order) s.
+
+(* ------------------------------------------------------------------------------------------ *)
+(* VMExecutor.generateCode (sub-chains): call data of the reward call to the economy contract, as
+   32-byte words after the selector:
+     account(castor) ; 0x60 ; (4+len(proposals))*32 ; len(proposals) ;
+     `for _, addr := range proposals` addr ...  (map order!) ; len(members) ; account(member) ... *)
+Definition generate_code (castor_acct : N) (order : list (string * N)) (members : list N) : list N :=
+  [castor_acct; 96%N; (N.of_nat (4 + List.length order) * 32)%N; N.of_nat (List.length order)]
+  ++ map snd order ++ N.of_nat (List.length members) :: members.
